@@ -242,7 +242,9 @@ func (s Shape) S(slices ...Slice) (retVal Shape, err error) {
 		}
 
 		if step > 0 {
-			retVal[d] = (end - start) / step
+			if retVal[d] = (end - start) / step; (end-start)%step > 0 && d > 0 {
+				retVal[d]++
+			}
 
 			//fix
 			if retVal[d] <= 0 {
